@@ -606,7 +606,7 @@ Definition add_by_ids (f : fw) (p : nat * nat) : fw :=
   fst (new_attack_by_ids L f (fst p) (snd p)).
 Definition build_iccma (labels : list L) (lines : list (nat * nat)) : fw :=
   fold_left add_by_ids lines (init labels).
-Definition in_rangeb (n : nat) (p : nat * nat) : bool := Nat.ltb (fst p) n && Nat.ltb (snd p) n.
+Definition line_okb (n : nat) (p : nat * nat) : bool := Nat.ltb (fst p) n && Nat.ltb (snd p) n.
 
 (* ---------------- the label set ---------------- *)
 Lemma init_lset_ok labels : lset_ok L (new_with_labels L leqb labels).
@@ -738,10 +738,10 @@ Proof.
 Qed.
 
 Lemma built_step s0 n l f p : ls_len L s0 = n -> built s0 n l f ->
-  built s0 n (if in_rangeb n p then l ++ [p] else l) (add_by_ids f p).
+  built s0 n (if line_okb n p then l ++ [p] else l) (add_by_ids f p).
 Proof.
   intros Hn [B1 B2 B3 B4 B5 B6 B7 B8]. destruct p as [a b].
-  unfold add_by_ids, new_attack_by_ids, in_rangeb. cbn [fst snd]. rewrite B1, Hn.
+  unfold add_by_ids, new_attack_by_ids, line_okb. cbn [fst snd]. rewrite B1, Hn.
   destruct (Nat.leb n a || Nat.leb n b) eqn:E.
   - assert (E' : Nat.ltb a n && Nat.ltb b n = false) by lia. rewrite E'. cbn [fst].
     now constructor.
@@ -763,12 +763,12 @@ Proof.
 Qed.
 
 Lemma built_fold s0 n : ls_len L s0 = n -> forall lines l f, built s0 n l f ->
-  built s0 n (l ++ filter (in_rangeb n) lines) (fold_left add_by_ids lines f).
+  built s0 n (l ++ filter (line_okb n) lines) (fold_left add_by_ids lines f).
 Proof.
   intros Hn. induction lines as [|p r IH]; intros l f Hb; cbn [fold_left filter].
   - now rewrite app_nil_r.
-  - pose proof (built_step s0 n l f p Hn Hb) as Hs. destruct (in_rangeb n p).
-    + replace (l ++ p :: filter (in_rangeb n) r) with ((l ++ [p]) ++ filter (in_rangeb n) r)
+  - pose proof (built_step s0 n l f p Hn Hb) as Hs. destruct (line_okb n p).
+    + replace (l ++ p :: filter (line_okb n) r) with ((l ++ [p]) ++ filter (line_okb n) r)
         by (rewrite <- app_assoc; reflexivity).
       now apply IH.
     + now apply IH.
@@ -790,16 +790,16 @@ Proof.
   apply fs_map_Some.
 Qed.
 
-Lemma in_rangeb_ok n lines : atts_ok n (filter (in_rangeb n) lines).
+Lemma line_okb_ok n lines : atts_ok n (filter (line_okb n) lines).
 Proof.
-  intros a b Hin. apply filter_In in Hin. destruct Hin as [_ H]. unfold in_rangeb in H.
+  intros a b Hin. apply filter_In in Hin. destruct Hin as [_ H]. unfold line_okb in H.
   cbn [fst snd] in H. lia.
 Qed.
-Lemma in_rangeb_all n lines : atts_ok n lines -> filter (in_rangeb n) lines = lines.
+Lemma line_okb_all n lines : atts_ok n lines -> filter (line_okb n) lines = lines.
 Proof.
   intros H. induction lines as [|[a b] r IH]; cbn [filter]; [reflexivity|].
   destruct (H a b (or_introl eq_refl)) as [Ha Hb].
-  unfold in_rangeb at 1. cbn [fst snd].
+  unfold line_okb at 1. cbn [fst snd].
   assert (E : Nat.ltb a n && Nat.ltb b n = true) by lia. rewrite E. f_equal. apply IH.
   intros x y Hin. apply H. now right.
 Qed.
@@ -809,7 +809,7 @@ Qed.
 Theorem iccma_store_general : forall labels lines,
   let f := build_iccma labels lines in
   let n := n_arguments L (init labels) in
-  let F := compact n (filter (in_rangeb n) lines) in
+  let F := compact n (filter (line_okb n) lines) in
   compact_af F n /\ view_same (view_of_af F) (view_of_fw f) /\
   CompProofs.af_of f = F /\ view_good (view_of_fw f) F.
 Proof.
@@ -817,9 +817,9 @@ Proof.
   pose proof (init_lset_ok labels) as Hls.
   set (s0 := new_with_labels L leqb labels) in *.
   assert (Hn : ls_len L s0 = n) by reflexivity.
-  assert (B : built s0 n (filter (in_rangeb n) lines) f).
+  assert (B : built s0 n (filter (line_okb n) lines) f).
   { apply (built_fold s0 n Hn lines [] (fw_new L s0)). rewrite <- Hn. apply built_init. }
-  assert (HF : compact_af F n) by (split; [reflexivity|apply in_rangeb_ok]).
+  assert (HF : compact_af F n) by (split; [reflexivity|apply line_okb_ok]).
   assert (Hlen : length (slots s0) = n) by (rewrite <- Hn; symmetry; apply lset_ok_len, Hls).
   assert (Hsame : view_same (view_of_af F) (view_of_fw f)).
   { unfold view_same, view_of_af, view_of_fw. cbn [g_maxid g_ids g_from g_to g_atts].
@@ -847,7 +847,7 @@ Theorem iccma_store_good : forall labels lines,
 Proof.
   intros labels lines Hnd Hok f F.
   destruct (iccma_store_general labels lines) as (H1 & _ & H3 & H4).
-  rewrite (init_n_arguments labels Hnd), (in_rangeb_all _ _ Hok) in H1, H3, H4.
+  rewrite (init_n_arguments labels Hnd), (line_okb_all _ _ Hok) in H1, H3, H4.
   split; [exact H1|]. split; [exact H3|exact H4].
 Qed.
 
